@@ -27,6 +27,54 @@ CHECKS = {
         "Trusted: the carry-over rules stated in the property (CUSUM mean/std of the last burn_in observations, drifted batch as "
         "reference), numpy seeding as the only source of randomness.",
     ),
+    "C06": (
+        "bounded exhaustive exploration of confusion-cell sequences on the real LinearFourRates in lock-step with an exact-arithmetic model that reproduces the Monte-Carlo bounds from the same numpy seed",
+        "All sequences over the 4 confusion cells to depth 6 for a pairwise-covering array of the parameter grid (eta, levels, burn_in, subsample, "
+        "round_val), all 15 non-empty rates_tracked subsets, a 'ties' family (eta=0.5, exact arithmetic) and L=20 default streams with every choice "
+        "of <= 2 deviations are executed on the real detector; a model with a literal confusion matrix, Fraction rates/statistics, the "
+        "update-only-when-the-rate-changed rule, the bounds cache keyed by (rounded rate, denominator) surviving resets and same-seed Monte-Carlo "
+        "percentile bounds predicts drift_state, retraining_recs, counters and all_drift_states after every update; only tracked rates are computed by the model.",
+        "Trusted: numpy.percentile / numpy.random.binomial; the draw protocol (num_mc x binomial(1,p,N) per uncached tracked rate, in rates_tracked "
+        "order) is part of the model; the statistical adequacy of num_mc draws is not decided (a DKW-band cross-check against the exactly "
+        "enumerated distribution for N <= 12 guards quantile orientation); parallelize=False only.",
+    ),
+    "C07": (
+        "bounded exhaustive exploration of batch / set_reference sequences on the real HDDDM and CDBD in lock-step with a reference model of distances, epsilons, adaptive threshold and reference handling",
+        "Every sequence of updates from a menu of small batches (reference-like, identical, shifted, widened, two sizes, 1-2 features) and "
+        "set_reference events up to the stated depth, per detect_batch x statistic x significance x divergence (Hellinger, JS, user function) x "
+        "subsets, is executed on the real detectors; the model recomputes common-edge histograms, the feature-averaged distance, epsilon, beta "
+        "with the (t - lambda - 1) scaling, the bootstrap epsilon_0 (read back from thresholds AND recomputed under the same seed), reference "
+        "union / replacement and the detect_batch=1 proxy batch; distance axioms (identity, symmetry, bounds) are invariants.",
+        "Trusted: numpy.histogram, scipy t-quantiles; the bootstrap draw protocol (subsets x DataFrame.sample) is part of the model.",
+    ),
+    "C08": (
+        "exhaustive enumeration of all small point multisets x parameters x fill histories on the real partitioner, point-routing reference model + structural invariants",
+        "Every multiset of 1-6 values from a 4-value axis (1-D) and of 1-4 points from a 3x3 grid (2-D), in integer, affine non-dyadic, scaled, "
+        "adjacent-float and one-ulp-off-midpoint variants, for count_ubound {1,2,3} x cutpoint_proportion_lbound {2e-10, 0.25, 2.0} (45 297 trees), "
+        "followed by every fill history up to depth 1-3 over 24 events (data set x tree id x reset flag): the public tree is walked against a model "
+        "that routes every point individually with exact midpoints; oracles (a)-(h) of DESIGN §4 C08 after every call.",
+        "Trusted: exact Fraction midpoints; which nodes are leaves is read from the real tree and validated (the property fixes only 'no node with <= "
+        "count_ubound points is split'); a second build() on the same partitioner is outside the quantifier.",
+    ),
+    "C09": (
+        "bounded exhaustive / reachable-state exploration of batch and sample sequences on the real kdq-tree detectors in lock-step with models reproducing the bootstrap bound from the same seed",
+        "KdqTreeBatch: all sequences over a 5-batch menu plus set_reference events to depth 4 per alpha x bootstrap_samples x count_ubound; "
+        "KdqTreeStreaming: all value sequences over {0,1,5} to depth 12 for window_size 2 (states merged by full structural hash), L=30 default "
+        "streams with <= 2 deviations for window sizes 3 and 4, per persistence x alpha. The model routes points through its own tree, recomputes the "
+        "corrected leaf distributions, the KL divergence (also from to_plotly_dataframe()), the (1-alpha) 'nearest' quantile of the same-seed "
+        "bootstrap, the next reference, and counts samples above the bound *in a row*.",
+        "Trusted: numpy.quantile, the bootstrap draw protocol (bootstrap_samples x choice(leaves, 2n, p)); the reference-tree shape is read from the public dataframe and validated.",
+    ),
+    "C11": (
+        "deviation-bounded exhaustive exploration of multivariate streams on the real PCACD in lock-step with a reference model of windows, PCA projection, per-component divergences and Page-Hinkley",
+        "A periodic default stream (test window == reference window at every check, score must be 0) of length 5w with every choice of <= 1-2 "
+        "deviations from a 4-5 point menu, all 3^8 streams for w=3, and a w=60 family (the only place the Page-Hinkley threshold is 1), over "
+        "dimension x window_size x step x metric x online_scaling x ev_threshold x delta, are executed on the real detector; the model does its own "
+        "fill/discard/slide schedule, standardisation, per-component supports, winsorising, histograms / Epanechnikov KDE + JS distance, maximum "
+        "over components and an exact Page-Hinkley recurrence; drift_state, counters, num_pcs (and the recorded score, defensively) are compared after every update.",
+        "Trusted: sklearn PCA(ev_threshold); degenerate reference windows (no variance, equal eigenvalues, explained variance within 1e-9 of the "
+        "threshold, zero KDE bandwidth) close the branch as undefined; scores within 1e-9 of a bin edge may fall either side.",
+    ),
     "C10": (
         "exhaustive enumeration of all ordered pairs of small point multisets on the real partitioner (axiom oracles) + bounded exhaustive batch sequences on the real NNDVI in lock-step with a same-seed reference model",
         "NNSpacePartitioner: all ordered pairs of multisets of 1-4 points from a 5-point menu in 1-D and 2-D for k in {1,2,3} are built on "
